@@ -119,13 +119,19 @@ func (d *dec) vlenRef(ref []byte, what string) (obj []byte, count uint32, hasCou
 }
 
 // ResolveVLen maps one on-disk variable-length element to the bytes of the global heap object it names.
+// A collection not met during Decode is decoded (and added to GlobalHeaps/Extents) on first use; like
+// Decode itself the method is not safe for concurrent use on one File.
 func (f *File) ResolveVLen(ref []byte) (out []byte, err error) {
 	if f == nil {
 		return nil, errors.New("nil file")
 	}
-	d := &dec{d: f.data, f: f, O: f.OffsetSize, L: f.LengthSize, base: f.BaseAddr, extSeen: map[string]bool{}, hdrCache: map[uint64]*header{}, heapCache: map[uint64]*localHeap{}, fheapCache: map[uint64]*fheap{}, ownerHdr: UndefAddr}
-	for _, e := range f.Extents {
-		d.extSeen[fmt.Sprintf("%x-%x-%s", e.Start, e.End, e.Kind)] = true
+	d := f.resolver
+	if d == nil {
+		d = &dec{d: f.data, f: f, O: f.OffsetSize, L: f.LengthSize, base: f.BaseAddr, extSeen: map[string]bool{}, hdrCache: map[uint64]*header{}, heapCache: map[uint64]*localHeap{}, fheapCache: map[uint64]*fheap{}, ownerHdr: UndefAddr, owner: "<ResolveVLen>"}
+		for _, e := range f.Extents {
+			d.extSeen[fmt.Sprintf("%x-%x-%s", e.Start, e.End, e.Kind)] = true
+		}
+		f.resolver = d
 	}
 	defer func() {
 		if r := recover(); r != nil {
